@@ -285,6 +285,42 @@ pub fn constructs(thorough: bool) -> Vec<Construct> {
             }));
         }
     }
+    // a function with a declared result type R whose body ends in each kind of statement that may
+    // or may not hand control on: whatever the checker accepts must produce an R on every path
+    for t in palette::position_types() {
+        let ts = t.print();
+        for (name, body) in [
+            ("loop-with-break", "loop { if c { break }; return OPERAND }"),
+            ("while-true-with-break", "while true { if c { break }; return OPERAND }"),
+            ("loop-with-nested-break", "loop { loop { break }; if c { break }; return OPERAND }"),
+            ("loop-break-in-match", "loop { match c { true => { break }, => { return OPERAND }, } }"),
+            ("if-without-else", "if !c { return OPERAND }"),
+            ("match-with-an-empty-arm", "match c { true => { }, => { return OPERAND }, }"),
+            ("for", "for e in [1]~ { if !c { return OPERAND } }"),
+            ("while", "n := mut 0; while *n < 1 { n += 1; if !c { return OPERAND } }"),
+            ("while-set", "while q: bool = c { if !q { return OPERAND }; break }"),
+            ("block", "{ if !c { return OPERAND } }"),
+            ("loop-without-exit", "loop { return OPERAND }"),
+            ("if-else-both-return", "if c { return OPERAND } else { return OPERAND }"),
+        ] {
+            let (ts2, body) = (ts.clone(), body.to_string());
+            // the results are also used as what the declared type says they are
+            let usage: &str = match ts.as_str() {
+                "int" => "x + 1",
+                "float" => "x / 2.0",
+                "string" => "x + \"s\"",
+                "[int]" => "x + [1]",
+                "(int, int)" => "x.0 + x.1",
+                "mut int" => "*x + 1",
+                "()->int" => "x() + 1",
+                "struct{a: int}" => "x.a + 1",
+                _ => "x",
+            };
+            v.push(stmt_c(&format!("fn-ends-with-{name}:{ts}"), 1, move |o| {
+                format!("g := (c: bool) -> {ts2} {{ {} }}; use := (x: {ts2}) -> any {{ return {usage} }}; return (g(false), g(true), use(g(false)), use(g(true)));", body.replace("OPERAND", &o[0]))
+            }));
+        }
+    }
     v
 }
 
